@@ -134,7 +134,7 @@ def run_c25(out, tier, seed):
             if name == "after":
                 same_after += st["same"]
         out.sample({"case": r["case"], "len": r["len"], "regions": rg, "outcomes_per_region": r["stats"]})
-    if same_after == 0:
+    if same_after == 0 and not out.violations:
         raise vf.ToolError("vacuous: no modification was ever ignored (the right key never authenticated anything)")
     out.coverage["region_expectations_from_model"] = {k: v["expect"] for k, v in regions.items()}
 
@@ -192,6 +192,39 @@ def run_c23(out, tier, seed):
         raise vf.ToolError("vacuous: only %d distinct layouts" % len(distinct))
 
 
+def cookie_plaintext_stage(out, tier, seed):
+    """C23, server-key context: spec/CookiePlain.tla enumerates plaintext shapes of cookies that authenticate under a held key;
+    each is decoded by the real KeySet alone and inside a sealed v4 / v5 request."""
+    cases = []
+    res = vf.run_tlc("CookiePlain", "CookiePlain.cfg", workers=1, timeout=600, tags=("PCASE",), line_sink=lambda t, o: cases.append(o), coverage=False)
+    if res.violated or not cases:
+        raise vf.ToolError("CookiePlain: %s" % (res.violated or "no cases"))
+    cases.sort(key=vf.key)
+    wd = vf.workdir("CookiePlain")
+    inp, outp = os.path.join(wd, "cases.ndjson"), os.path.join(wd, "results.ndjson")
+    vf.write_ndjson(inp, cases)
+    vf.run_harness("ntp_proto", "keyset::verif_hook::verif_keyset", {"mode": "plaintexts", "input": inp, "output": outp, "seed": seed})
+    rows = vf.read_ndjson(outp)
+    if len(rows) != 2 * len(cases):
+        raise vf.ToolError("CookiePlain: %d results for %d cases" % (len(rows), len(cases)))
+    oks = 0
+    for r in rows:
+        c = cases[r["id"]]
+        name = c["short"] or "alg=%d,len=%d" % (c["alg"], c["len"])
+        want = "ok" if c["ok"] else "err"
+        obs = [("decode_cookie", r["alone"])] + [("v%d request" % v, x) for v, x in r["in_packet"]]
+        for where, got in obs:
+            if got.startswith("panic"):
+                out.violation("Packet:C23:panic:cookie plaintext %s (%s): %s" % (name, where, got[6:60]), {"case": c, "observed": r})
+            elif got != want:
+                out.violation("Packet:C23:cookie plaintext %s (%s): predicted %s observed %s" % (name, where, want, got), {"case": c, "observed": r})
+        oks += c["ok"]
+    if oks == 0:
+        raise vf.ToolError("CookiePlain: vacuous (no accepted shape)")
+    out.add("cookie_plaintext_shapes", len(cases))
+    out.add("cookie_plaintext_decodes", 3 * len(rows))
+
+
 def run(prop, tier, seed):
     out = vf.Outcome(prop, tier, seed, "exploration" if prop == "C23" else "model_checking")
     out.assumptions += ["code observed as compiled for tests (debug assertions, overflow checks)",
@@ -216,6 +249,7 @@ def run(prop, tier, seed):
                                 "mutations (no panic) and sealed datagrams with right / wrong / no keys; distinct = distinct (version, "
                                 "predicted class, field kinds and declared lengths, total length)")
         run_c23(out, tier, seed)
+        cookie_plaintext_stage(out, tier, seed)
     return out
 
 
